@@ -19,7 +19,8 @@ Definition current_flags : mflags :=
 Definition current_params : params :=
   {| p_layers := VarLayers; p_taskdir := VarLayersTaskDir; p_dir_after := TaskDirTemplatedAfter;
      p_envorder := EnvMergeOrder;
-     p_tdot_first := TaskDotenvFirstWins; p_matrix_shared := MatrixResolveWritesShared |}.
+     p_tdot_first := TaskDotenvFirstWins; p_matrix_shared := MatrixResolveWritesShared;
+     p_defer_shared := DeferEntrySharedWithDefinition |}.
 
 (* shapes the model knows how to follow; anything else breaks an obligation *)
 Definition vars_facts_known : bool :=
@@ -185,24 +186,32 @@ Definition nrun_defs (r : nrun) : bool := mon_defs (nr_defs_before r) (nr_defs_a
 Definition dummy_ctx : tctx :=
   {| x_name := ""; x_special := []; x_genv := []; x_gvars := []; x_incvars := []; x_incfile := [];
      x_call := []; x_tvars := []; x_root_dir := ""; x_task_dir := ""; x_dir_tmpl := None; x_tdot := []; x_tenv := [];
-     x_matrix := None; x_vprobes := []; x_eprobes := [] |}.
+     x_matrix := None; x_vprobes := []; x_eprobes := []; x_defers := [] |}.
 
-Definition empty_outputs : outputs := {| o_vars := []; o_env := []; o_items := [] |}.
+Definition empty_outputs : outputs := {| o_vars := []; o_env := []; o_items := []; o_defers := [] |}.
 
 (* repairs: cache key gets the dir / the env; matrix refs resolved into a copy;
-   the task's dir templated after the global and include vars *)
-Record nvariant := { nv_dir : bool; nv_env : bool; nv_matrix : bool; nv_dirlate : bool }.
+   the task's dir templated after the global and include vars; the compiled
+   task gets copies of the defer: entries *)
+Record nvariant := { nv_dir : bool; nv_env : bool; nv_matrix : bool; nv_dirlate : bool; nv_defer : bool }.
 
-Definition nv4 (a b c d : bool) : nvariant := {| nv_dir := a; nv_env := b; nv_matrix := c; nv_dirlate := d |}.
+Definition nv5 (a b c d e : bool) : nvariant :=
+  {| nv_dir := a; nv_env := b; nv_matrix := c; nv_dirlate := d; nv_defer := e |}.
+Definition nv4 (a b c d : bool) : nvariant := nv5 a b c d false.
 Definition nv (a b c : bool) : nvariant := nv4 a b c false.
 
+Definition nv_size (v : nvariant) : nat :=
+  (if nv_dir v then 1 else 0) + (if nv_env v then 1 else 0) + (if nv_matrix v then 1 else 0)
+  + (if nv_dirlate v then 1 else 0) + (if nv_defer v then 1 else 0).
+
+Definition bools : list bool := [false; true].
+
+Definition all_nvariants : list nvariant :=
+  flat_map (fun e => flat_map (fun d => flat_map (fun c => flat_map (fun b => map (fun a => nv5 a b c d e) bools)
+                                                                     bools) bools) bools) bools.
+
 Definition nvariants_by_size : list nvariant :=
-  [ nv4 false false false false;
-    nv4 true false false false; nv4 false true false false; nv4 false false true false; nv4 false false false true;
-    nv4 true true false false; nv4 true false true false; nv4 true false false true;
-    nv4 false true true false; nv4 false true false true; nv4 false false true true;
-    nv4 true true true false; nv4 true true false true; nv4 true false true true; nv4 false true true true;
-    nv4 true true true true ].
+  flat_map (fun k => filter (fun v => Nat.eqb (nv_size v) k) all_nvariants) [0; 1; 2; 3; 4; 5].
 
 Definition nworld (v : nvariant) (os : vars) : world :=
   {| w_sh := sh_concrete; w_os := os; w_exp := false; w_os_wins := EnvOsWinsUnlessExperiment;
@@ -214,7 +223,8 @@ Definition nparams (v : nvariant) : params :=
      p_dir_after := if nv_dirlate v then "IncludeVars" else TaskDirTemplatedAfter;
      p_envorder := EnvMergeOrder;
      p_tdot_first := TaskDotenvFirstWins;
-     p_matrix_shared := MatrixResolveWritesShared && negb (nv_matrix v) |}.
+     p_matrix_shared := MatrixResolveWritesShared && negb (nv_matrix v);
+     p_defer_shared := DeferEntrySharedWithDefinition && negb (nv_defer v) |}.
 
 (* the target's outputs when the given list is compiled in order *)
 Definition target_outputs (v : nvariant) (os : vars) (xs : list tctx) (i : nat) : outputs :=
@@ -265,11 +275,11 @@ Definition some_order (proj : outputs -> list string) (r : nrun) : bool :=
 Definition nrun_agree (r : nrun) : bool :=
   outputs_eqb (nr_alone r) (alone_outputs no_variant (nr_os r) (nr_alone_tasks r))
   && (if nr_parallel r
-      then some_order o_vars r && some_order o_env r && some_order o_items r
+      then some_order o_vars r && some_order o_env r && some_order o_items r && some_order o_defers r
       else existsb (fun o => outputs_eqb (nr_ctx r) (ordered_outputs no_variant r o)) (orders r)).
 
 (* the values are those the shell gives in the task's own directory and environment *)
-Definition strong_variant : nvariant := nv4 true true true true.
+Definition strong_variant : nvariant := nv5 true true true true true.
 Definition nrun_own (r : nrun) : bool :=
   outputs_eqb (nr_alone r) (alone_outputs strong_variant (nr_os r) (nr_alone_tasks r)).
 Definition nblame_own (r : nrun) : option nvariant :=
@@ -290,4 +300,4 @@ Definition nrun_blamed (sel : nvariant -> bool) (r : nrun) : bool :=
   nrun_mon r || match nblame r with Some v => negb (sel v) | None => true end.
 
 Definition nrun_unexplained (r : nrun) : bool :=
-  nrun_mon r || match nblame r with Some v => nv_dir v || nv_env v || nv_matrix v || nv_dirlate v | None => false end.
+  nrun_mon r || match nblame r with Some v => nv_dir v || nv_env v || nv_matrix v || nv_dirlate v || nv_defer v | None => false end.
